@@ -7,6 +7,7 @@ EXPLANATION = (
 
 
 def check(ctx, prog):
+    model.rule_posted_kept(ctx, prog)  # every posted constraint stays posted (who may write the list of constraints)
     capacity.rule_value_width(ctx, prog)  # domain values and view offsets have one integer type in all arrays that carry them
     model.rule_init_coherence(ctx, prog)
     model.rule_trigger_join(ctx, prog)
